@@ -49,6 +49,15 @@ Proof.
   inversion H. repeat split; auto.
 Qed.
 
+Lemma quorum_checked_true : forall f q v n, quorum_checked f q v n = Ok true -> is_quorum q v n = Ok true.
+Proof.
+  intros f q v n H. unfold quorum_checked in H. destruct (is_quorum q v n) as [b|e|m]; [exact H| |discriminate].
+  destruct f; discriminate.
+Qed.
+
+Lemma quorum_checked_err : forall q v n e, is_quorum q v n = Err e -> quorum_checked false q v n = Ok false.
+Proof. intros q v n e H. unfold quorum_checked. rewrite H. reflexivity. Qed.
+
 (* ---------------------------------------------------------------- queues *)
 Lemma key_eqb_eq : forall a b, key_eqb a b = true <-> a = b.
 Proof.
@@ -195,7 +204,7 @@ Definition ev_ok (e : Ev) (r : list Ev) : Prop :=
                 /\ p_vend p <= now c /\ p_minv p <= height c
                 /\ tl = tally_of (votes_of id r) (nveto P a (p_content p))
                 /\ nv = nvoters P a (p_content p) /\ q = quorum_of P a (p_content p)
-                /\ (exists qb, is_quorum q (t_total tl) nv = Ok qb /\ res = final_result A content ext P qb tl)
+                /\ (exists qb, quorum_checked (quorum_error_panics P) q (t_total tl) nv = Ok qb /\ res = final_result A content ext P qb tl)
                 /\ mine = height c + min_enact_blocks P a
   | EvApply id ok c a a' =>
       exists p, submit_of id r = Some p /\ n_applied id r = O
@@ -369,7 +378,7 @@ Proof.
   unfold process_prop in H. rewrite Hp in H.
   destruct (Z.ltb_spec (height c) (p_minv p)) as [Hh|Hh].
   { inversion H; subst s'. split; auto. split; [apply evolves_refl|auto]. }
-  destruct (is_quorum _ _ _) as [qb|e|m] eqn:Hq; cbn [bind] in H; try discriminate.
+  destruct (quorum_checked _ _ _ _) as [qb|e|m] eqn:Hq; cbn [bind] in H; try discriminate.
   inversion H; subst s'; clear H.
   destruct (inv_props s HI id p Hp) as [[p0 [Hs0 [Hst0 Hen0]]] Hl0].
   set (a := app s) in *. set (ct := p_content p) in *.
@@ -645,6 +654,7 @@ Proof.
   rewrite E in Hok2. destruct (log_ok_at _ _ _ Hok2) as [Hf Hok4]. cbn [ev_ok] in Hf.
   destruct Hf as [p4 [Hs4 [_ [_ [Hv [Hm [Htl [Hnv [Hq [[qb [Hqb Hres]] Hmi]]]]]]]]]].
   symmetry in Hres. apply final_result_enactment in Hres; auto. destruct Hres as [-> Hdec].
+  apply quorum_checked_true in Hqb.
   exists p4, tl, cf, af, l3, l4. subst nv q mine. repeat split; auto.
 Qed.
 
@@ -755,6 +765,39 @@ Proof.
   destruct (run_inv ops2 _ (history_ok ops1 a)) as [_ Hev].
   destruct (Hev id p Hp) as [p' [Hp' [Hst Hres]]]. exists p'. split; auto. split; auto.
   destruct Hres as [E|[E|E]]; auto. contradiction.
+Qed.
+
+(* ---- an inconsistent tally (IsQuorum reports an error: more votes than voters, quorum above 1)
+   with the repaired end blocker: the proposal is finalised as quorum-not-reached and is never applied *)
+Lemma not_passed_never_applied : forall l id res tl nv q mine c a,
+  log_ok l -> final_of id l = Some (res, tl, nv, q, mine, c, a) -> res <> Enactment -> n_applied id l = O.
+Proof.
+  induction l as [|e r IH]; intros id res tl nv q mine c a Hok Hf Hne; [discriminate|].
+  cbn [log_ok] in Hok. destruct Hok as [He Hr].
+  destruct e as [i p0 c0|i w o c0 a0|i res0 tl0 nv0 q0 mine0 c0 a0|i ok0 c0 a0 a1]; cbn [final_of n_applied] in *.
+  - eapply IH; eauto.
+  - eapply IH; eauto.
+  - destruct (Z.eqb_spec i id) as [->|Hni]; [|eapply IH; eauto].
+    cbn [ev_ok] in He. destruct He as [p [_ [_ [Hna _]]]]. exact Hna.
+  - destruct (Z.eqb_spec i id) as [->|Hni]; [|eapply IH; eauto].
+    cbn [ev_ok] in He. destruct He as [p [_ [_ [[tl1 [nv1 [q1 [m1 [cf1 [af1 [Hf1 _]]]]]]] _]]]].
+    rewrite Hf in Hf1. inversion Hf1. congruence.
+Qed.
+
+Theorem inconsistent_tally_not_applied : forall ops a id res tl nv q mine c af e,
+  quorum_error_panics P = false ->
+  final_of id (log (run' ops (init a))) = Some (res, tl, nv, q, mine, c, af) ->
+  is_quorum q (t_total tl) nv = Err e ->
+  res = QuorumNotReached /\ n_applied id (log (run' ops (init a))) = O.
+Proof.
+  intros ops a id res tl nv q mine c af e Hflag Hf Hq.
+  pose proof (inv_log _ (history_ok ops a)) as Hok.
+  assert (Hres : res = QuorumNotReached).
+  { destruct (final_of_split _ _ _ _ _ _ _ _ _ Hf) as [l3 [l4 E]]. rewrite E in Hok.
+    destruct (log_ok_at _ _ _ Hok) as [He _]. cbn [ev_ok] in He.
+    destruct He as [p [_ [_ [_ [_ [_ [_ [_ [_ [[qb [Hqb Hr]] _]]]]]]]]]].
+    rewrite Hflag, (quorum_checked_err _ _ _ _ Hq) in Hqb. inversion Hqb; subst qb. exact Hr. }
+  split; [exact Hres|]. eapply not_passed_never_applied; eauto. rewrite Hres. discriminate.
 Qed.
 
 (* the tally uses exactly the votes in force: the latest accepted vote of each voter *)
